@@ -396,7 +396,7 @@ Definition show_case (b : body) (ats : list (nat * sval)) (nss : list (list anod
 
 # ------------------------------------------------------------------ link to the shared PEG core
 LINK_IMPORTS = """From TxV Require Import Core.Base Core.Show Model.MultBase Gen.SrcMult Model.Mult.
-From TxV Require Model.Build Model.MultBuild Proofs.MultEndProofs.
+From TxV Require Model.Build Model.MultBuild Proofs.MultEndProofs Model.Spec Proofs.BuildPlaced.
 From TxV Require Import Model.PegSyntax Model.Peg Model.MultPeg.
 Open Scope string_scope.
 Definition attr_id (s : list N) : nat := match s with [97%N] => 0 | [98%N] => 1 | [99%N] => 2 | _ => 99 end.
@@ -430,7 +430,9 @@ Definition show_link (g : grammar) (mm : list Build.ninfo) (c : config) (b : Mul
              match Build.info mm nid with
              | Build.IRule Build.RCommon _ attrs => MultBuild.mult_agreesb attr_id b attrs
              | _ => false
-             end) ++ "#" ++
+             end) ++
+  (* the table conditions of C02_run_object_values_table (statistics: is the case in that theorem's class) *)
+  show_bool (BuildPlaced.table_asg_ok g mm 24) ++ show_bool (Spec.wfg g 24) ++ "#" ++
   sjoin "#" (map (fun ti =>
     match run g c (orc_of (fst ti)) false 200 (snd ti) with
     | Parsed (RTree (NT _ (t :: _))) =>
@@ -696,6 +698,12 @@ def run_cases(chk, cases, tag, shard=120):
         got = lv.split("#")
         wl = want.split("#")
         chk.stat("link: grammars checked")
+        flags = got[0]
+        got[0] = flags[:1]
+        if len(flags) == 3:
+            chk.stat("link: table_asg_ok %s, wfg %s" % (flags[1], flags[2]))
+            if flags[1] != "T":
+                disagreements.append({"case": c, "what": "BuildPlaced.table_asg_ok is false on the dumped table", "impl": "T", "model": lv})
         bad = got[0] != "T" or len(got) != len(wl)
         if not bad:
             for gx, wx in zip(got[1:], wl[1:]):
